@@ -40,7 +40,10 @@ def kinds():
     ks += [K(res=[("RA", "mut")]),                               # D: resources
            K(views=[("W", "mut")], res=[("RA", "ref")]),
            K(res=[("RB", "mut"), ("RA", "ref")]),
-           K(views=[("S", "ref")], res=[("RB", "ref")])]
+           K(views=[("S", "ref")], res=[("RB", "ref")]),
+           K(views=[("S", "ref")], res=[("RA", "mut")]),
+           K(views=[("W", "mut")], res=[("RB", "mut")]),
+           K(views=[("H", "optref")], res=[("RA", "ref"), ("RB", "mut")])]
     for k in VK:                                                 # E: entry views
         ks.append(K(entry=[("S", k)]))
     ks += [K(views=[("W", "mut")], entry=[("S", "ref")]),
@@ -185,7 +188,8 @@ def family(tier, ks):
 def cost(tasks):
     return {2: 4.5, 3: 9.5, 4: 19.0}[len(tasks)]
 
-def main(tier, srcdir, nbins=16):
+def main(tier, srcdir, nbins=None):
+    nbins = nbins or (16 if tier == "quick" else 96)   # rustc memory grows with the cases per bin
     ks = gen_kinds(os.path.join(srcdir, "sched_kinds.rs"))
     outdir = os.path.join(srcdir, "bin")
     cases = family(tier, ks)
